@@ -221,6 +221,12 @@ def peiLoop : Nat → List Nat → P (List Nat)
 
 def decodePei : P (List Nat) := fun c => peiLoop (c.bits.length + 1) [] c
 
+/-- `previous_picture.map(|p| p.options).unwrap_or_else(PictureOption::empty)` -/
+def prevOptions (prev : Option PicHdr) : Nat := match prev with | some p => p.options | none => 0
+
+/-- the format of the previous picture differs from this header's (then reference picture resampling parameters must follow) -/
+def formatChanged (prev : Option PicHdr) (fmt : Option SrcFmt) : Bool := match prev with | some p => p.format != fmt | none => false
+
 /-- `decode_picture` -/
 def decodePicture (d : DecOpts) (prev : Option PicHdr) : P (Option PicHdr) :=
   transactionUnion (do
@@ -244,7 +250,7 @@ def decodePicture (d : DecOpts) (prev : Option PicHdr) : P (Option PicHdr) :=
       let (o, fmt, t, fol, hasPlus, hasOpp, mux) ← (match ft with
         | some (f, t) => pure (o, some f, t, ({} : Followers), false, false, (none : Option (Option Nat)))
         | none => do
-          let (eo, mf, t, fol, hasOpp) ← decodePlusptype d (match prev with | some p => p.options | none => 0)
+          let (eo, mf, t, fol, hasOpp) ← decodePlusptype d (prevOptions prev)
           let mux ← decodeCpmPsbi
           pure (o ||| eo, mf, t, fol, true, hasOpp, some mux))
       let fmt ← (if fol.customFormat then do
@@ -278,7 +284,7 @@ def decodePicture (d : DecOpts) (prev : Option PicHdr) : P (Option PicHdr) :=
       let predRef ← (if Opt.has o Opt.REFERENCE_PICTURE_SELECTION then decodeTrpi else pure none)
       if Opt.has o Opt.REFERENCE_PICTURE_SELECTION then decodeBcm else pure ()
       -- decode_rprp is a stub that always fails
-      if Opt.has o Opt.REFERENCE_PICTURE_RESAMPLING || (match prev with | some p => p.format != fmt | none => false)
+      if Opt.has o Opt.REFERENCE_PICTURE_RESAMPLING || formatChanged prev fmt
         then P.fail .unimplemented else pure ()
       let q ← readBits 8 5
       let mux ← (match mux with
